@@ -38,7 +38,7 @@ def family_F():
     F.append(Schema('F16', [Opt('sec', 'm', 'M', sub=[Opt('sec', 's', '', sub=[Opt('int', 'x', '', 1)]),
                                                      Opt('int', 'l', 'L', [b'1', b'2'])])],
                     "'+=' on defaults and a single section inside a multi section"))
-    F.append(Schema('F17', [Opt('ptr', 'p', '', None, 'pf'), Opt('ptr', 'pl', 'L', None, 'pf'), Opt('int', 'i', '', 5)],
+    F.append(Schema('F17', [Opt('ptr', 'p', '', None, 'pf'), Opt('ptr', 'pl', 'L', None, 'pf'), Opt('ptr', 'pd', '', b'dflt', 'pf'), Opt('int', 'i', '', 5)],
                     'pointer options'))
     F.append(Schema('F18', [Opt('sec', 'mt', 'MT', sub=[Opt('sec', 'in', 'M', sub=[Opt('int', 'x', '', 1)])]),
                             Opt('int', 'l', 'L', [b'1'])], 'multi inside titled multi'))
